@@ -149,6 +149,15 @@ def inputs(ctx):
         ins.append({"id": "g%d" % n, "k": "vttpos", "groups": [None], "cap": None, "lang": d})
         n += 1
 
+    # layouts whose right / bottom edge lies just inside the safe area (85-90 % / 90-95 %): under the
+    # default options they come back unchanged
+    for (ox, oy, ex, ey) in (("10", "10", "50", "82"), ("10", "60", "50", "33"), ("40", "10", "48", "30"), ("35", "55", "55", "40"),
+                             ("10", "10", "80", "85"), ("5", "90", "50", "5")):
+        d = {"o": [[ox, "%"], [oy, "%"]], "e": [[ex, "%"], [ey, "%"]]}
+        for level in ("cap", "styled"):
+            desc = _set_desc(None, d if level == "cap" else None, d if level == "styled" else None, level == "styled")
+            ins.append({"id": "g%d" % n, "k": "dfxprt", "set": desc, "opts": "default", "level": level})
+            n += 1
     # the zero corner and its neighbourhood: a left / top offset of exactly 0 (with no, zero or
     # positive padding on that side) is still written; a width that padding eats up
     zc = 0
@@ -218,7 +227,8 @@ def inputs(ctx):
             ins.append({"id": "r%d" % k, "k": "vttpos", "groups": g, "cap": rnd_layout() if rng.random() < 0.3 else None,
                         "lang": None})
     for k, st in enumerate(["line:5% align:left", "position:10% size:35%", "align:end", "line:0 position:50%,center",
-                            "vertical:rl", "region:fred"]):
+                            "vertical:rl", "region:fred", "align:left\tposition:50%", "align:left  position:50%",
+                            "line:5%\t\talign:left   size:40%", "position:10%,line-left align:center size:35%"]):
         ins.append({"id": "w%d" % k, "k": "vttpos", "raw": st})
     return ins
 
